@@ -740,6 +740,8 @@ impl Tester {
 
 const SKIP_KEYS: [&str; 10] = ["sched", "scenario", "property", "run_index", "run_seed", "base_seed", "tier", "subscriber", "decisions", "trace"];
 
+const NO_SHRINK_INT_KEYS: [&str; 8] = ["obj", "objs", "id", "slot", "tag", "thread", "victim", "slow"];
+
 fn collect_paths(v: &Value, path: &mut Vec<String>, arrays: &mut Vec<Vec<String>>, ints: &mut Vec<Vec<String>>, top: bool) {
     match v {
         Value::Object(o) => {
@@ -761,7 +763,9 @@ fn collect_paths(v: &Value, path: &mut Vec<String>, arrays: &mut Vec<Vec<String>
             }
         }
         Value::Number(n) => {
-            if n.as_u64().map(|x| x > 0).unwrap_or(false) {
+            // identifiers are not magnitudes: shrinking them only creates collisions
+            let is_ident = path.iter().rev().find(|p| p.parse::<usize>().is_err()).map(|k| NO_SHRINK_INT_KEYS.contains(&k.as_str())).unwrap_or(false);
+            if !is_ident && n.as_u64().map(|x| x > 0).unwrap_or(false) {
                 ints.push(path.clone());
             }
         }
